@@ -76,117 +76,137 @@ RULESETS = {
  'C20': [('R-NULL-HEAD', MOST_LINKED), 'R-DISTINCT-DEGREE', 'R-TOPK', 'R-LINK-PAIR', 'R-LINK-WALK', 'R-HEAD-REPOINT'] + WALK,
 }
 
-TEXTS = {'C01': {'claim': 'no stale write-back, no lost flag update, page/crawled marks monotone, pointers append-only, crawled only on request, reports '
-                  'count only newly flagged pages, queries cannot add pages',
-         'explanation': 'Typestate dataflow on per-function CFGs over the typed call graph: (R-FRESH) no trie-node copy is written back, or handed '
-                        'to a callee that writes it, after a call that may rewrite trie blocks or a yield without an intervening refresh/read; '
-                        '(R-DIRTY-WRITTEN) every mutated node reaches write() before rebind/reload/return; (R-MONOTONE) page and crawled marks are '
-                        'never cleared and structural pointers are written only into empty slots by the allocation functions; (R-CRAWLED) a page is '
-                        "marked crawled only under the request's crawled argument or as crawl-batch source; (R-PAGE-REPORT) decision tables of "
-                        'add_page/__add_page: created-page reporting happens exactly on the path that flags a new page; (R-READONLY) only write '
-                        'requests reach a store mutation.',
+TEXTS = {'C01': {'claim': 'no stale write-back, no lost flag update, page/crawled marks monotone, structural pointers append-only and pointee-first paired, one strict '
+                  'stem order in every search, node reuse resets every field, multi-block stems written and read with the same flags, crawled only on request, '
+                  'reports count only newly flagged pages, enumerations and counters select by the mark they report, re-adding allocates and writes nothing, '
+                  'queries cannot add pages, every request argument is honoured',
+         'explanation': 'Typestate dataflows on per-function CFGs over the typed call graph (no stale write-back after a trie-growing call or a yield; every '
+                        'mutated node reaches write(), also through callees that must write it), decision tables of the three sibling searches, the insert '
+                        'attach code, add_page and __add_page (abstract path execution), must-assign analysis of node reloads, tail/chunk protocol, '
+                        'who-may-call and append-only pointer rules, guard facts for the crawled mark, enumeration/count filter tables, call-graph '
+                        'reachability for queries.',
          'not_decided': 'that the enumerated page set equals the submitted set for every insertion order (value statement)'},
- 'C02': {'claim': 'the three sibling searches and the insert side implement one strict order on full stems, bottom-up reconstruction follows the '
-                  'pointers the insert wrote, the on-disk layout read is the layout written (payload 74 = 75p-1, tail flags, field positions), '
-                  'multi-block reads are possible on every back-end, pointers are append-only',
-         'explanation': 'Decision tables (abstract path execution) of the three sibling-search loops and of the insert attach code against the '
-                        'strict stem order; parent/link pairing at the two allocation sites; constant folding of the struct formats and derived '
-                        'constants; accessor/field tables computed from the node classes; writer/reader agreement of the tail protocol; call-shape '
-                        'conformance of every storage call against every back-end that can be the receiver.',
+ 'C02': {'claim': 'the three sibling searches and the insert side implement one strict order on full stems, bottom-up reconstruction follows the pointers the '
+                  'insert wrote and prepends stems in order, the on-disk layout read is the layout written (payload 74 = 75p-1, tail flags, field positions), '
+                  'a head with HAS_TAIL always gets its tail read, multi-block reads work on every back-end, pointers are append-only',
+         'explanation': 'Decision tables of the three sibling-search loops and of the insert attach code against the strict stem order; parent/link pairing at '
+                        'the two allocation sites; constant folding of the struct formats and derived constants (27 relations); accessor/field/flag tables '
+                        'computed from the node classes; writer/reader agreement of the tail protocol including chunk count and is-last flag; must-assign '
+                        'analysis of node reloads; LRU assembly order top-down and bottom-up; call-shape, return-convention, cursor and block-semantics '
+                        'conformance of both writable back-ends.',
          'not_decided': 'byte identity of reconstructed LRUs and the BST invariant on reachable files as value statements'},
- 'C03': {'claim': 'each submitted pair is recorded once per direction on every path, lists never lose their older part, the two directions never '
-                  'cross, a self-link is reported once as internal, no NULL head is dereferenced in page-level queries',
-         'explanation': 'Path counting over the loops that record a link batch (each pair once outbound, once inbound on every path), guard-fact '
-                        'obligations of LinkStore.add_links (prepend, repoint after write), forwarding of the direction switch at every call site, '
-                        'field tables of the two link heads, decision table of the page-level link filter, freshness of the page block that carries '
-                        'the heads.',
+ 'C03': {'claim': 'each submitted pair is recorded once per direction on every path, lists never lose their older part, walks visit every stub, the two '
+                  'directions never cross, a self-link is reported once as internal, no NULL head is dereferenced in page-level queries, count_links = stubs / '
+                  '2',
+         'explanation': 'Path counting over the loops that record a link batch (each pair once outbound, once inbound on every path; mirrored keys), '
+                        'guard-fact obligations of LinkStore.add_links (prepend, chain, repoint after write), walk tables of the three link iterators (head '
+                        'once, every previous stub once, no early exit, totals only after the walk), count formulas, forwarding of the direction switch at '
+                        'every call site, field tables of the two link heads, decision table of the page-level link filter, freshness of the page block that '
+                        'carries the heads.',
          'not_decided': 'equality of reported weights with submission counts'},
- 'C04': {'claim': 'deepest webentity on the walk wins identically on the insert and the query walk, attaching an attached prefix is refused, '
-                  'resolution fails with TraphException iff the walk saw no webentity, every edit is persisted',
-         'explanation': 'Decision tables of the per-stem tracking code of add_lru and follow_lru (sibling agreement), origin/guard dataflow of every '
-                        'set_webentity site, guard-fact tables of the resolution requests, mutate-then-write pairing of every prefix edit.',
+ 'C04': {'claim': 'deepest webentity on the walk wins identically on the insert and the query walk, a diverging lookup stops as not-found, attaching an '
+                  'attached prefix and detaching with a wrong owner are refused with TraphException before anything is changed, resolution fails iff the walk '
+                  'saw no webentity, every edit is persisted, no query answers from a memo a writer does not invalidate',
+         'explanation': 'Decision tables of the per-stem tracking code of add_lru and follow_lru (sibling agreement), of the sibling searches, of windup '
+                        'resolution and of the prefix-edit requests; origin/guard dataflow of every set_webentity site; guard-fact tables of the resolution '
+                        'requests; CFG reachability of refusals after mutations; mutate-then-write pairing; cache discipline on the index objects.',
          'not_decided': 'the net effect of an arbitrary edit history as seen by the walk (value statement over histories)'},
- 'C05': {'claim': 'the bounded walk stops exactly at nodes owned by a webentity other than the start, continues through their siblings, and the DFS '
-                  'and in-order variants agree; each visited block is re-read on pop',
-         'explanation': 'Decision tables of the loop bodies of webentity_dfs_iter and of the recursive in-order traversal against the relevance '
-                        'specification; structure of the traversal stacks.',
+ 'C05': {'claim': 'the bounded walk stops exactly at nodes owned by a webentity other than the start, continues through their siblings, the DFS and in-order '
+                  'variants agree, every given prefix is walked, each visited block is re-read on pop into a traversal-local node, page listings carry the '
+                  "node's own crawled mark",
+         'explanation': 'Decision tables of the loop bodies of webentity_dfs_iter and of the recursive in-order traversal against the relevance specification; '
+                        'structure of the traversal stacks and nodes; every-prefix-walked and no-early-exit rules; enumeration filter tables; resolution rules '
+                        'shared with C04.',
          'not_decided': 'the partition statement itself'},
- 'C06': {'claim': 'get_potential_prefix mirrors __add_page; strict "longer than E"; default rule only when K empty and E absent; variations always '
-                  'expanded; one id per creation; installing a rule flags, writes and re-inserts every page below the anchor',
-         'explanation': 'Decision tables of the creation ladder in __add_page and get_potential_prefix (sibling agreement and specification), of the '
-                        'candidate loop (strictly longer wins), of __create_webentity and of rule installation; tracking agreement; allocation '
-                        'obligations.',
+ 'C06': {'claim': 'get_potential_prefix mirrors __add_page; strict "longer than E"; default rule only when K empty and E absent; every anchor on the walk is '
+                  'proposed deepest first; variations always expanded; one id per creation; installing a rule registers it in RAM, flags and writes the anchor '
+                  'and re-inserts every page below it',
+         'explanation': 'Decision tables of the creation ladder in __add_page and get_potential_prefix (sibling agreement and specification), of the candidate '
+                        'loop (strictly longer wins), of rules_to_apply, of __create_webentity and of rule installation; tracking agreement; id allocation '
+                        'obligations; variation rules.',
          'not_decided': 'what the regular expressions match'},
- 'C07': {'claim': 'nearest webentity is propagated correctly, fast and slow variants drop/keep the same links, inbound is the same code with the '
-                  'other head, page tallies only under is_page and a source webentity',
-         'explanation': 'Decision table of dfs_with_webentity_iter (nearest webentity carried down), decision tables of the fast and slow network '
-                        'filters against one specification, direction forwarding, NULL-head guards.',
+ 'C07': {'claim': 'nearest webentity is propagated correctly, fast and slow variants drop/keep the same links, a target without webentity is skipped (never a '
+                  'KeyError, never a cached negative taken for a hit), inbound is the same code with the other head, page tallies only under is_page and a '
+                  'source webentity, both directions of every link are recorded',
+         'explanation': 'Decision table of dfs_with_webentity_iter (nearest webentity carried down), decision tables of the fast and slow network filters '
+                        'against one specification, memo-key and tolerant-lookup rules, direction forwarding, NULL-head guards, link recording and walking '
+                        'rules.',
          'not_decided': 'weight sums and transpose equality as values'},
- 'C08': {'claim': 'no NULL head dereferenced (block 0 parses as a stub and fabricates a link), links kept iff (outbound and other webentity) or '
-                  '(internal and same webentity), inbound iff source webentity differs, degrees count distinct pages',
-         'explanation': 'NULL-head guards, decision tables of the per-webentity link filters, relevance tables of the bounded walk, de-duplicating '
-                        'iterators in degree counters, direction forwarding.',
+ 'C08': {'claim': 'no NULL head dereferenced (block 0 parses as a stub and fabricates a link), links kept iff (outbound and other webentity) or (internal and '
+                  'same webentity), inbound iff source webentity differs, the other end is resolved by the upward walk starting at the node itself, memos '
+                  'keyed by the resolved node, degrees count distinct pages, every prefix walked',
+         'explanation': 'NULL-head guards, decision tables of the per-webentity link filters (both copies), independence of the outbound and inbound blocks, '
+                        'memo-key rules, relevance tables of the bounded walk, de-duplicating iterators in degree counters, direction forwarding, link walk '
+                        'tables.',
          'not_decided': 'exactness of the returned sets'},
- 'C09': {'claim': 'the two halves of a token describe the same node, path digits and radices agree between writer and reader, ascending in-order '
-                  'emission with strict resume, same page set as the unpaginated query, nodes never move so a path stays valid',
-         'explanation': 'Pairing of the two token halves, writer/reader digit tables and radix constants of the path codec, emission order and '
-                        'strict resume filter of the in-order walk, relevance tables, append-only pointers.',
+ 'C09': {'claim': 'the two halves of a token describe the same node, path digits, radices, separator and index encoding agree between writer and reader, '
+                  'ascending in-order emission with strict resume, the overflow page is neither returned nor recorded nor counted, the resume path applies to '
+                  'the first prefix only, nodes never move so a path stays valid',
+         'explanation': 'Pairing of the two token halves, writer/reader digit tables, radix constants and text format of the token codec, emission order and '
+                        'strict byte-wise resume filter of the in-order walk, pagination bookkeeping tables, relevance tables, append-only pointers.',
          'not_decided': 'the k+1 look-ahead arithmetic and completeness at every cut'},
- 'C10': {'claim': 'token halves advance together (also on link-less pages), same links as the unpaginated query for the same switches, no NULL head '
-                  'dereferenced',
-         'explanation': 'Pairing of the two token halves in the pagelink pagination loop, agreement of its link filter with the unpaginated query, '
-                        'NULL-head guard, token codec.',
+ 'C10': {'claim': 'token halves advance together (also on link-less pages), same links as the unpaginated query for the same switches, the overflow source '
+                  'page is not recorded, prefixes walked from the token index with the resume path reset after the first, no NULL head dereferenced',
+         'explanation': 'Pairing of the two token halves in the pagelink pagination loop, agreement of its link filter with the unpaginated query, pagination '
+                        'bookkeeping table, NULL-head guard, token codec, resume filter.',
          'not_decided': 'counts per answer'},
- 'C11': {'claim': 'reopen never truncates, create only when asked or when nothing exists, a single file or a partial block is refused, clear resets '
-                  'and rebuilds both structures, files stay whole numbers of blocks, reopen re-reads the header, no state lives only in a node copy',
-         'explanation': 'Decision table of Traph.__init__ (which files are opened how, when refused) and of Traph.clear; block geometry (every write '
-                        'is one packed block); header reload obligations; mutate-then-write pairing.',
+ 'C11': {'claim': 'reopen never truncates, create only when asked or when nothing exists, a single file or a partial block is refused, clear resets and '
+                  'rebuilds both structures and honours empty rule arguments, files stay whole numbers of blocks, reopen re-reads the header, rules are '
+                  'registered in RAM on every open',
+         'explanation': 'Decision table of Traph.__init__ (which files are opened how, when refused) and of Traph.clear on both back-ends; block geometry '
+                        '(every write is one packed block); block semantics of both writable back-ends; header reload obligations; rule registration on open.',
          'not_decided': 'equality of every observable answer before/after'},
- 'C12': {'claim': 'single writer of the counter, write-through before the id is handed out, strictly increasing, one allocation per request shared '
-                  'by all attached prefixes, header preserved on reopen and rebuilt on clear',
-         'explanation': 'Who-may-call on the counter mutators, event-order dataflow in the allocator (increment, write-through, hand out), one '
-                        'allocation per request outside loops, header ensure/read obligations on open, rebuild on clear.',
+ 'C12': {'claim': 'single writer of the counter, strictly increasing, write-through before the id is handed out, one allocation per request shared by all '
+                  'attached prefixes, header preserved on reopen (written at block 0, not appended) and rebuilt on clear',
+         'explanation': 'Who-may-call on the counter mutators, event-order dataflow in the allocator (increment, write-through, hand out), one allocation per '
+                        'request outside loops, header ensure/read obligations on open, rebuild on clear, block-0 addressing of both back-ends.',
          'not_decided': '32-bit overflow of the counter'},
- 'C13': {'claim': 'every path that can attach a prefix goes through add_lru(flag_can_have_child_webentities=True), which clears and persists the '
-                  'mark on every proper ancestor, existing or new; the mark is never set again; the shortcut never prunes siblings',
-         'explanation': 'Origin dataflow of every node that receives a webentity id; decision tables of both loops of add_lru (ancestor unmarking) '
-                        'with a linear-integer domain for `i < l - 1`; decision table of dfs_iter (shortcut prunes children only); who-may-call on '
-                        'the mark setters.',
+ 'C13': {'claim': 'every path that can attach a prefix goes through add_lru(flag_can_have_child_webentities=True), which clears and persists the mark on every '
+                  'proper ancestor, existing or new; the mark is never set again; the shortcut never prunes siblings; hierarchy queries collect every other '
+                  'webentity on the walk of every prefix',
+         'explanation': 'Origin dataflow of every node that receives a webentity id; decision tables of both loops of add_lru (ancestor unmarking) with a '
+                        'linear-integer domain for `i < l - 1`; decision table of dfs_iter (shortcut prunes children only); tables of the parent and child '
+                        'queries; freshness (a stale write-back would set the mark again); who-may-call on the mark setters.',
          'not_decided': 'exactness of the parent query (value statement)'},
  'C14': {'claim': 'no path from any query entry point to a mutation of either store (complete for the statement modulo A1-A2)',
-         'explanation': 'Typed call-graph reachability: from every read-only Traph entry point (names in the query families) no path of resolved '
-                        'calls reaches a storage-class method that mutates the store bytes, a truncating open(), or a direct mutation of a storage '
-                        'object; storage mutators are computed from the storage class bodies.',
+         'explanation': 'Typed call-graph reachability: from every read-only Traph entry point (names in the query families) no path of resolved calls reaches '
+                        'a storage-class method that mutates the store bytes, a truncating open(), or a direct mutation of a storage object; storage mutators '
+                        'are computed from the storage class bodies.',
          'not_decided': 'nothing beyond A1-A2'},
- 'C15': {'claim': 'every call shape used by node/header/store code is accepted by every back-end that can be the receiver; read/write return '
-                  'conventions and the read-cursor protocol agree; a memory index is set up like a freshly created file index',
-         'explanation': 'Signature conformance of every storage call site against every back-end class the typed receiver can be (protocol sites), '
-                        'back-end/guard correlation for facade sites, return conventions and cursor protocol of read(); decision table of the '
-                        'constructor (the in-memory branch is a fresh index).',
+ 'C15': {'claim': 'every call shape used by node/header/store code is accepted by every back-end that can be the receiver; read/write conventions, the read '
+                  'cursor and block addressing agree; a memory index is set up like a freshly created file index and cleared like a truncated one; the mapped '
+                  'reader returns the current file',
+         'explanation': 'Signature conformance of every storage call site against every back-end class the typed receiver can be, back-end/guard correlation '
+                        'for facade sites, return conventions, cursor protocol and cursor continuity of read(), block-semantics tables of both writable '
+                        'back-ends, decision table of the constructor and of clear on both back-ends.',
          'not_decided': 'equality of answers for every history'},
- 'C16': {'claim': 'every node cached across a yield point is refreshed before it is written; traversals keep block numbers and re-read',
-         'explanation': 'R-FRESH with every yield as an invalidation point; traversal stacks hold block numbers and re-read on pop; generators never '
-                        'write.',
+ 'C16': {'claim': 'every node cached across a yield point is refreshed before it is written; traversals keep block numbers and their own node; no '
+                  'request-spanning scratch state; a link target unknown to a suspended query is skipped',
+         'explanation': 'R-FRESH with every yield as an invalidation point; traversal stacks hold block numbers, re-read on pop into a per-traversal node; no '
+                        'scratch state shared through the index objects; network lookups tolerate pages indexed meanwhile.',
          'not_decided': 'schedule independence of the final state and the qualified-throughout bounds on answers'},
- 'C17': {'claim': 'expansion cannot raise, the scheme rewrite touches only the leading scheme stem, the given prefix is listed first, automatic '
-                  'creation always expands and attaches the class under one id',
-         'explanation': 'List-length-set abstract interpretation and None-ness guard facts of helpers.lru_variations / https_variation; anchoring of '
-                        'the scheme test and rewrite; shape of the result list; both automatic creation sites expand; one id for all attachable '
-                        'variations.',
+ 'C17': {'claim': 'expansion cannot raise, the scheme rewrite touches only the leading scheme stem, www is added/removed only as the last of at least two '
+                  'hosts, the host section is substituted in place, the given prefix is listed first, automatic creation always expands and attaches the class '
+                  'under one id',
+         'explanation': 'List-length-set abstract interpretation and None-ness guard facts of helpers.lru_variations / https_variation; anchoring of the '
+                        'scheme and www tests; in-place substitution of the host section; shape of the result list; both automatic creation sites expand; one '
+                        'id for all attachable variations; no memo of expansions.',
          'not_decided': 'closure of the expansion (an algebraic law over byte strings)'},
- 'C18': {'claim': 'a partial block or a single file is refused with the library error, a pointer is never on disk before its pointee, all writes are '
-                  'whole blocks, a block a cut may have removed is never unpacked unchecked',
-         'explanation': 'Decision table of the constructor (refusals), persisted-before-pointed typestate of every pointer store, block geometry, '
-                        'guard facts on every storage.read result.',
+ 'C18': {'claim': 'a partial block or a single file is refused with the library error, a pointer is never on disk before its pointee (trie and link store), '
+                  'all writes are whole blocks, a block a cut may have removed is never unpacked unchecked',
+         'explanation': 'Decision table of the constructor (refusals) and of the corruption check, persisted-before-pointed typestate of every pointer store '
+                        'in both stores, block geometry, guard facts on every storage.read result, freshness and dirty-written dataflows.',
          'not_decided': 'the behaviour at every cut of every history (crash points are not a syntactic object)'},
- 'C19': {'claim': 'no block after the terminal chunk, allocation only on missing stems, re-adding takes the no-write path, one stub per link end',
-         'explanation': 'Reachability after the terminal chunk yield; who-may-allocate and decision tables of the insert path (found stems allocate '
-                        'and write nothing); block geometry; one stub per batch element.',
+ 'C19': {'claim': 'no block after the terminal chunk and no surplus chunk, allocation only on missing stems, re-adding takes the no-write path, one stub per '
+                  'link end, no blocks orphaned by stale write-backs, metrics count each kind of block by its own mark',
+         'explanation': 'Reachability after the terminal chunk yield, chunk count and is-last expressions; who-may-allocate and decision tables of the insert '
+                        'path; block geometry; one stub per batch element per direction; metrics table; freshness (a stale write-back orphans blocks).',
          'not_decided': 'the closed-form block count'},
- 'C20': {'claim': 'a page without inbound list contributes 0 and not the header block parsed as one stub; indegree counts distinct sources; the heap '
-                  'is keyed by indegree, trimmed only above k and drained in non-increasing order; the depth limit prunes children only',
-         'explanation': 'NULL-head guard and de-duplicating iterator of the indegree counter; heap key/trim/drain obligations; depth atom of the '
-                        'bounded walk.',
+ 'C20': {'claim': 'a page without inbound list contributes 0 and not the header block parsed as one stub (known finding D5); indegree counts distinct sources; '
+                  'the heap is keyed by indegree, trimmed only above k (never heapreplace) and drained in non-increasing order; the depth limit prunes '
+                  'children only; every inbound link is recorded and walked',
+         'explanation': 'NULL-head guard and de-duplicating iterator of the indegree counter; heap key/trim/drain obligations; depth atom of the bounded walk; '
+                        'link recording and walking rules.',
          'not_decided': 'top-k optimality and order as values'}}
 
 RULE_DOC = {}
